@@ -82,6 +82,30 @@ CHECKS = {
         note=TL_NOTE + " Post-Aspen storage only in this revision.",
         design_ref="2 C14",
     ),
+    "C05": dict(
+        category="exploration",
+        technique="exhaustive enumeration of ABCI call-path schedules before a decided block, differential oracle on the real App",
+        text=("For each of 6 decided blocks built by a real proposer (CheckTx + PrepareProposal, vote extensions signed by the "
+              "genesis validators, incl. a currency-pair removal priced by the block's own extended commit): every sequence of "
+              "<= 2 (thorough 3) pre-calls from {ProcessProposal(decided), PrepareProposal(decided), ProcessProposal(other), "
+              "PrepareProposal(other), ProcessProposal(invalid), restart} followed by FinalizeBlock(decided)+Commit, each on an "
+              "identically built chain with real storage; compared with the sync path on app hash, per-tx (code, data, gas), "
+              "validator/consensus-param updates, the full committed state dump, and success/failure."),
+        note="Single decided block after a fixed prefix; hash-map iteration order inside the app is sampled (one App per path), not enumerated. One known finding listed in known_findings.txt.",
+        design_ref="2 C05",
+    ),
+    "C06": dict(
+        category="exploration",
+        technique="bounded-exhaustive enumeration of mempool contents x size limits x proposal mutations through real Prepare/ProcessProposal",
+        text=("Every subset of <= 3 (thorough 4) of 12 transactions (dependent nonces, 100/150 kB rollup data straddling the "
+              "256000-byte limit, an execution-failing transaction, sudo/unbundleable groups) in every insertion order for <= 2 "
+              "(3), with empty and with signed priced extended commits, x max_tx_bytes = S_k-1, S_k, S_k+1 for every prefix k "
+              "of the honest proposal: real CheckTx + PrepareProposal on node A, real ProcessProposal on node B; oracle: "
+              "prepare succeeds, byte and sequenced-data limits, group order, B accepts. Every applicable mutation of the "
+              "honest proposal from a by-construction-invalid menu (11 kinds, every position) must be rejected by B."),
+        note="CometBFT's own size check and proposal signature are outside the harness; proposals at one height after a fixed prefix.",
+        design_ref="2 C06",
+    ),
     "C08": dict(
         category="exploration",
         technique="bounded-exhaustive input enumeration on the real code against an independent RFC 6962 reference",
@@ -108,6 +132,20 @@ CHECKS = {
               "starved, nothing panics."),
         note="Sequencer RPC is an in-process wiremock fake; ed25519 verification trusted; HashMap iteration order inside the pipeline is sampled per run, results compared as sets.",
         design_ref="2 C09",
+    ),
+    "C15": dict(
+        category="exploration",
+        technique="bounded-exhaustive enumeration of power vectors x vote kinds x last-commit relations through the real validate_proposal; price vectors through the real median",
+        text=("Stage validate: every validator set of 1..4 validators with listed powers from {1,2,3} (thorough {1,2,3,5}) x "
+              "every per-vote kind (valid, absent, nil, forged extension, signed by another validator, duplicate of another "
+              "validator, missing signature, (thorough: other height, nil with extension, unknown validator, too many pairs)) x "
+              "last-commit relation, through the real ProposalHandler::validate_proposal and, when accepted, the real "
+              "apply_prices_from_vote_extensions; oracle: accepted => matches last commit, every commit-flag extension validly "
+              "signed by its attributed stored validator, none twice, 3 x contributing > 2 x listed power; honest full and "
+              "empty extended commits accepted; published price within the reported range. Stage median: every price vector "
+              "of length 1..4 over {MIN, MIN+1, -3..3, MAX-1, MAX} through calculate_prices_from_vote_extensions."),
+        note="ed25519 trusted; the link from a rejected proposal to 'no price update' is through ProcessProposal (C05/C06 drive it with valid extended commits only).",
+        design_ref="2 C15",
     ),
     "C16": dict(
         category="model_checking",
